@@ -150,6 +150,7 @@ class Driver:
         self.macros = None
         self.ws = real.Workspace()
         self.max_cost = 400
+        self.max_risk = 400           # see rulegen.backtrack_risk
         self.prep: Optional[dsl.Prepared] = None
 
     FLAGSETS = [(False, False), (True, False), (False, True), (True, True)]
@@ -259,6 +260,8 @@ class Driver:
             ctx.ran()
             if o.status == "timeout":
                 ctx.inconc("regex engine timeout (JASM's 60 s budget)")
+                if len(ctx.notes) < 5:
+                    ctx.notes.append("timeout on rule: " + text[:400].replace("\n", " / ") + f" | listing of {len(prep.expect)} instructions")
                 return False
             any_found = any_found or o.found_model
             nontrivial = (o.found_model or base_found) and (self.interesting is None or self.interesting(pattern))
@@ -336,7 +339,8 @@ class Driver:
                 gen = RG.RuleGen(ctx.rng, self.prep.sinsts, feat)
                 pattern = gen.rule()
                 for _ in range(40):
-                    if pattern and RG.pattern_cost(pattern) <= self.max_cost and (self.accept is None or self.accept(pattern)):
+                    if pattern and RG.pattern_cost(pattern) <= self.max_cost and RG.backtrack_risk(pattern) <= self.max_risk and (
+                            self.accept is None or self.accept(pattern)):
                         break
                     gen = RG.RuleGen(ctx.rng, self.prep.sinsts, self.feat_factory(ctx.rng))
                     pattern = gen.rule()
